@@ -99,6 +99,40 @@ def mviews():
                 del junk
 
 
+def mviews_strided():
+    """memoryview of a STRIDED array: the component adapters of vector arrays (V3fArray(n).z is a FloatArray of stride 3 that
+    shares the vector array's memory).  Same record, same clauses: shape (n,), len = n * itemsize, the n component values."""
+    for cname in ("V2fArray", "V3fArray", "V4fArray", "V3dArray", "V2iArray", "V3iArray", "V4dArray", "V3sArray"):
+        cls = lookup(cname)
+        if cls is None:
+            continue
+        w = int(cname[1])
+        for n in (1, 3, 4):
+            for ci, comp in enumerate("xyzw"[:w]):
+                a = cls(n)
+                for i in range(n):
+                    a[i] = elem(cname, 10 * i + 1)
+                try:
+                    c = getattr(a, comp)
+                    mv = memoryview(c)
+                except (AttributeError, TypeError):
+                    continue
+                except BaseException:  # noqa
+                    emit({"e": "mview", "cls": type(c).__name__, "n": n, "exc": 1, "w": 1, "strided": cname + "." + comp})
+                    continue
+                elems = [[ival(c[i])] for i in range(n)]
+                fmt = mv.format
+                raw = mv.tobytes()
+                isz = mv.itemsize
+                cnt = len(raw) // isz if isz else 0
+                try:
+                    vals = [ival(x) for x in struct.unpack("@%d%s" % (cnt, fmt.lstrip("@<=")), raw[: cnt * isz])]
+                except struct.error:
+                    vals = [88888]
+                emit({"e": "mview", "cls": type(c).__name__, "n": n, "exc": 0, "w": 1, "ndim": mv.ndim, "shape": list(mv.shape), "itemsize": isz, "nbytes": mv.nbytes,
+                      "format": fmt.lstrip("@<="), "ro": 1 if mv.readonly else 0, "madero": 0, "vals": vals, "elems": elems, "stable": 1, "strided": cname + "." + comp})
+
+
 FROM = {"Int64ArrayFromBuffer": ("l", 1), "IntArrayFromBuffer": ("i", 1), "FloatArrayFromBuffer": ("f", 1), "DoubleArrayFromBuffer": ("d", 1),
         "V2iArrayFromBuffer": ("i", 2), "V2fArrayFromBuffer": ("f", 2), "V2dArrayFromBuffer": ("d", 2),
         "V3iArrayFromBuffer": ("i", 3), "V3fArrayFromBuffer": ("f", 3), "V3dArrayFromBuffer": ("d", 3),
@@ -486,11 +520,70 @@ def varrays(rnd, thorough):
             emit(dict(base, e="varr", op="ro", tried=tried, raised=raised, writable=1 if v.writable() else 0, full=full(v)))
 
 
+# ---- converting constructors between array classes -------------------------------------------------------------
+
+def conversions(rnd, thorough):
+    """DstArray(src) for every pair of array classes the module converts between, with src a plain array, a masked reference
+    (selection not a prefix), a read-only array and a masked reference of a read-only array: the result holds the selected
+    values, is an independent plain array (writing to it leaves the source alone), and stays intact after the source is
+    released."""
+    prims = ["IntArray", "FloatArray", "DoubleArray", "ShortArray", "UnsignedCharArray", "Int64Array"]
+    vecs = ["V2iArray", "V2fArray", "V2dArray", "V2sArray", "V3iArray", "V3fArray", "V3dArray", "V3sArray", "V4iArray", "V4fArray", "V4dArray", "V4sArray"]
+    pairs = [(a, b) for a in prims for b in prims if a != b] + [(a, b) for a in vecs for b in vecs if a != b and a[1] == b[1]]
+    for sname, dname in pairs:
+        S, D = lookup(sname), lookup(dname)
+        if S is None or D is None:
+            continue
+        for n in (1, 4, 9):
+            for kind in ("plain", "masked", "readonly", "masked-readonly"):
+                src = S(n)
+                vals = [1 + (3 * i + n) % 50 for i in range(n)]
+                for i in range(n):
+                    src[i] = elem(sname, vals[i])
+                mask = [1] * n
+                if "readonly" in kind:
+                    src.makeReadOnly()
+                arg = src
+                if kind.startswith("masked"):
+                    mask = [(1 if (i * 7 + n) % 3 != 0 else 0) for i in range(n)]
+                    if n > 1:
+                        mask[0] = 0
+                        mask[n - 1] = 1
+                    m = imath.IntArray(n)
+                    for i in range(n):
+                        m[i] = mask[i]
+                    arg = src[m]
+                try:
+                    d = D(arg)
+                except (TypeError, Exception) as e:  # noqa
+                    if isinstance(e, TypeError) or "did not match" in str(e):
+                        break                                   # the module does not convert this pair
+                    emit({"e": "conv", "src": sname, "dst": dname, "kind": kind, "vals": vals, "mask": mask, "exc": 1, "out": [], "len": -1, "after": [], "srcafter": []})
+                    continue
+                first = [ival(comps(d[i])[0]) for i in range(len(d))]
+                ln = len(d)
+                wrote = 0
+                try:
+                    if ln:
+                        d[0] = elem(dname, 60)
+                        wrote = 1
+                except Exception:  # noqa
+                    pass
+                srcafter = [ival(comps(src[i])[0]) for i in range(n)]
+                del arg
+                del src
+                junk = [S(64) for _ in range(4)]
+                after = [ival(comps(d[i])[0]) for i in range(len(d))]
+                del junk
+                emit({"e": "conv", "src": sname, "dst": dname, "kind": kind, "vals": vals, "mask": mask, "exc": 0, "out": first, "len": ln, "wrote": wrote, "after": after, "srcafter": srcafter})
+
+
 def main():
     seed = int(sys.argv[1])
     thorough = sys.argv[2] == "thorough"
     rnd = random.Random(seed)
     mviews()
+    mviews_strided()
     frombufs()
     arrays2d(rnd, thorough)
     masks2d(rnd, thorough)
@@ -498,6 +591,7 @@ def main():
     strings(rnd, thorough)
     string_sequences(rnd, thorough)
     varrays(rnd, thorough)
+    conversions(rnd, thorough)
 
 
 def guarded_main():
